@@ -22,12 +22,52 @@ def loopW (l : LoopSt) : Nat :=
   | .draining => 1
   | .exited => 0
 
-def cancelW (b : Bool) : Nat := if b then 0 else 1
+/-- Number of entries of `l` naming a context that is not yet done. -/
+def liveCount (l d : List Nat) : Nat := l.countP (fun y => !ctxDone d y)
+
+/-- The `[¬cancelled]` component: the not-yet-cancelled contexts among those the configuration
+    mentions (`c.ctxs`; only these can be cancelled). -/
+def cancelW (c : Cfg) (d : List Nat) : Nat := liveCount c.ctxs d
+
+theorem liveCount_cons_le (l d : List Nat) (x : Nat) : liveCount l (x :: d) ≤ liveCount l d := by
+  unfold liveCount
+  apply List.countP_mono_left
+  intro y _ hy
+  simp only [ctxDone_cons, Bool.not_or, Bool.and_eq_true] at hy
+  exact hy.2
+
+theorem liveCount_cons_lt (l d : List Nat) (x : Nat) (hx : x ∈ l) (hd : ctxDone d x = false) :
+    liveCount l (x :: d) < liveCount l d := by
+  induction l with
+  | nil => simp at hx
+  | cons y ys ih =>
+    have hle := liveCount_cons_le ys d x
+    by_cases hyx : y = x
+    · subst hyx
+      have e1 : (!ctxDone (y :: d) y) = false := by simp
+      have e2 : (!ctxDone d y) = true := by simp [hd]
+      simp only [liveCount, List.countP_cons, e1, e2] at hle ⊢
+      simp only [if_true, Bool.false_eq_true, if_false]; omega
+    · have hx' : x ∈ ys := by
+        simp at hx; rcases hx with h | h
+        · exact absurd h.symm hyx
+        · exact h
+      have := ih hx'
+      have e1 : (!ctxDone (x :: d) y) = !ctxDone d y := by simp [hyx]
+      simp only [liveCount, List.countP_cons, e1] at this ⊢
+      omega
+
+theorem cancelW_cons_le (c : Cfg) (d : List Nat) (x : Nat) : cancelW c (x :: d) ≤ cancelW c d :=
+  liveCount_cons_le _ _ _
+
+theorem cancelW_cons_lt (c : Cfg) (d : List Nat) (x : Nat) (hx : x ∈ c.ctxs) (hd : ctxDone d x = false) :
+    cancelW c (x :: d) < cancelW c d :=
+  liveCount_cons_lt _ _ _ hx hd
 
 def mu (c : Cfg) (s : State) : Nat :=
   9 * (c.deps.length - s.caller.sent) + 8 * s.enq.length + 7 * s.loop.jobs.countP undispB
   + (s.ws.map W.weight).sum + 2 * s.donec.length + callerW s.caller + loopW s.loop
-  + cancelW s.cancelled
+  + cancelW c s.doneCtx
 
 theorem sum_set {l : List Nat} {w : Nat} {a b : Nat} (h : l[w]? = some a) :
     (l.set w b).sum + a = l.sum + b := by
@@ -80,7 +120,7 @@ theorem mu_decreases {c : Cfg} (hw : c.wiring = Wiring.std) (hwf : WfCfg c) {s s
   | loopTick => exact absurd rfl ha
   | callerSend =>
     obtain ⟨_, _, hlt, he, rfl⟩ := inv_callerSend hs
-    simp only [mu, addLog_caller, addLog_enq, addLog_loop, addLog_ws, addLog_donec, addLog_cancelled, he,
+    simp only [mu, addLog_caller, addLog_enq, addLog_loop, addLog_ws, addLog_donec, addLog_doneCtx, he,
                List.nil_append, List.length_singleton, List.length_nil]
     have : callerW { s.caller with sent := s.caller.sent + 1 } = callerW s.caller := rfl
     rw [this]; omega
@@ -92,14 +132,14 @@ theorem mu_decreases {c : Cfg} (hw : c.wiring = Wiring.std) (hwf : WfCfg c) {s s
     rw [e1, e2]; omega
   | callerRetCtx =>
     obtain ⟨hc, hr, _, rfl⟩ := inv_callerRetCtx hw hs
-    simp only [mu, addLog_caller, addLog_enq, addLog_loop, addLog_ws, addLog_donec, addLog_cancelled]
+    simp only [mu, addLog_caller, addLog_enq, addLog_loop, addLog_ws, addLog_donec, addLog_doneCtx]
     have e1 : callerW { s.caller with ret := some [Res.ctxErr] } = 0 := by simp [callerW]
     have e2 : callerW s.caller = 1 := by simp [callerW, hr, hc]
     rw [e1, e2]; omega
   | callerRetFin =>
     obtain ⟨hc, hr, _, rfl⟩ := inv_callerRetFin hs
-    simp only [mu, addLog_caller, addLog_enq, addLog_loop, addLog_ws, addLog_donec, addLog_cancelled]
-    have e1 : callerW { s.caller with ret := some (retVal s) } = 0 := by simp [callerW]
+    simp only [mu, addLog_caller, addLog_enq, addLog_loop, addLog_ws, addLog_donec, addLog_doneCtx]
+    have e1 : callerW { s.caller with ret := some (retVal c s) } = 0 := by simp [callerW]
     have e2 : callerW s.caller = 1 := by simp [callerW, hr, hc]
     rw [e1, e2]; omega
   | loopEnq =>
@@ -114,7 +154,7 @@ theorem mu_decreases {c : Cfg} (hw : c.wiring = Wiring.std) (hwf : WfCfg c) {s s
     have hl := loopW_exitCheck_select (enq c s.loop s.loop.jobs.length) (by rw [eo.2.2.1]; exact hp)
     have hl2 : loopW (enq c s.loop s.loop.jobs.length) = loopW s.loop := by
       simp [loopW, eo.2.2.1, eo.2.2.2.1]
-    simp only [mu, addLog_caller, addLog_enq, addLog_loop, addLog_ws, addLog_donec, addLog_cancelled, he,
+    simp only [mu, addLog_caller, addLog_enq, addLog_loop, addLog_ws, addLog_donec, addLog_doneCtx, he,
                exitCheck_jobs, hu, List.length_cons]
     omega
   | loopEnqClosed =>
@@ -148,8 +188,8 @@ theorem mu_decreases {c : Cfg} (hw : c.wiring = Wiring.std) (hwf : WfCfg c) {s s
       rw [p1, p2] at this; simpa using this
     have hs' := sum_map_set (y := W.holding j) hidle
     simp only [W.weight] at hs'
-    simp only [mu, addLog_caller, addLog_enq, addLog_loop, addLog_ws, addLog_donec, addLog_cancelled,
-               setW_caller, setW_enq, setW_loop, setW_ws, setW_donec, setW_cancelled, exitCheck_jobs]
+    simp only [mu, addLog_caller, addLog_enq, addLog_loop, addLog_ws, addLog_donec, addLog_doneCtx,
+               setW_caller, setW_enq, setW_loop, setW_ws, setW_donec, setW_doneCtx, exitCheck_jobs]
     omega
   | loopResult =>
     obtain ⟨j, r, rest, hp, hdc, rfl⟩ := inv_loopResult hs
@@ -190,34 +230,34 @@ theorem mu_decreases {c : Cfg} (hw : c.wiring = Wiring.std) (hwf : WfCfg c) {s s
     obtain ⟨hp, _, _, rfl⟩ := inv_loopClose hw hs
     have h1 : loopW { s.loop with phase := .exited } = 0 := by simp [loopW]
     have h2 : loopW s.loop = 1 := by simp [loopW, hp]
-    simp only [mu, addLog_caller, addLog_enq, addLog_loop, addLog_ws, addLog_donec, addLog_cancelled, h1, h2]
+    simp only [mu, addLog_caller, addLog_enq, addLog_loop, addLog_ws, addLog_donec, addLog_doneCtx, h1, h2]
     omega
   | workerDecide w =>
     obtain ⟨j, hj, hcases⟩ := inv_workerDecide hw hs
     rcases hcases with ⟨_, rfl⟩ | ⟨_, _, rfl⟩ | ⟨_, _, rfl⟩
     · have := sum_map_set (y := W.posting j .ctxErr) hj
       simp only [W.weight] at this
-      simp only [mu, addLog_caller, addLog_enq, addLog_loop, addLog_ws, addLog_donec, addLog_cancelled,
-               setW_caller, setW_enq, setW_loop, setW_ws, setW_donec, setW_cancelled]
+      simp only [mu, addLog_caller, addLog_enq, addLog_loop, addLog_ws, addLog_donec, addLog_doneCtx,
+               setW_caller, setW_enq, setW_loop, setW_ws, setW_donec, setW_doneCtx]
       omega
     · have := sum_map_set (y := W.posting j .invalid) hj
       simp only [W.weight] at this
-      simp only [mu, addLog_caller, addLog_enq, addLog_loop, addLog_ws, addLog_donec, addLog_cancelled,
-               setW_caller, setW_enq, setW_loop, setW_ws, setW_donec, setW_cancelled]
+      simp only [mu, addLog_caller, addLog_enq, addLog_loop, addLog_ws, addLog_donec, addLog_doneCtx,
+               setW_caller, setW_enq, setW_loop, setW_ws, setW_donec, setW_doneCtx]
       omega
     · have := sum_map_set (y := W.running j) hj
       simp only [W.weight] at this
-      simp only [mu, addLog_caller, addLog_enq, addLog_loop, addLog_ws, addLog_donec, addLog_cancelled,
-               setW_caller, setW_enq, setW_loop, setW_ws, setW_donec, setW_cancelled]
+      simp only [mu, addLog_caller, addLog_enq, addLog_loop, addLog_ws, addLog_donec, addLog_doneCtx,
+               setW_caller, setW_enq, setW_loop, setW_ws, setW_donec, setW_doneCtx]
       omega
   | workerEnd w o cancel =>
     obtain ⟨j, hj, rfl⟩ := inv_workerEnd hs
-    have hab : (afterBody s j o cancel).loop = s.loop ∧ (afterBody s j o cancel).ws = s.ws ∧
-        (afterBody s j o cancel).donec = s.donec ∧ (afterBody s j o cancel).enq = s.enq ∧
-        (afterBody s j o cancel).caller = s.caller ∧
-        cancelW (afterBody s j o cancel).cancelled ≤ cancelW s.cancelled := by
+    have hab : (afterBody c s j o cancel).loop = s.loop ∧ (afterBody c s j o cancel).ws = s.ws ∧
+        (afterBody c s j o cancel).donec = s.donec ∧ (afterBody c s j o cancel).enq = s.enq ∧
+        (afterBody c s j o cancel).caller = s.caller ∧
+        cancelW c (afterBody c s j o cancel).doneCtx ≤ cancelW c s.doneCtx := by
       unfold afterBody; split
-      · simp [cancelW]
+      · simp [cancelW_cons_le]
       · simp
     obtain ⟨a1, a2, a3, a4, a5, a6⟩ := hab
     have hsum := sum_map_set (y := if o = .goexit then W.dying j else W.posting j (outcomeRes o)) hj
@@ -225,31 +265,33 @@ theorem mu_decreases {c : Cfg} (hw : c.wiring = Wiring.std) (hwf : WfCfg c) {s s
       split <;> rfl
     rw [hy] at hsum
     simp only [W.weight] at hsum
-    simp only [mu, setW_caller, setW_enq, setW_loop, setW_ws, setW_donec, setW_cancelled, a1, a2, a3, a4, a5]
+    simp only [mu, setW_caller, setW_enq, setW_loop, setW_ws, setW_donec, setW_doneCtx, a1, a2, a3, a4, a5]
     omega
   | workerPost w =>
     obtain ⟨j, r, hj, _, rfl⟩ := inv_workerPost hs
     have := sum_map_set (y := W.idle) hj
     simp only [W.weight] at this
-    simp only [mu, setW_caller, setW_enq, setW_loop, setW_ws, setW_donec, setW_cancelled, List.length_append,
+    simp only [mu, setW_caller, setW_enq, setW_loop, setW_ws, setW_donec, setW_doneCtx, List.length_append,
                List.length_singleton]
     omega
   | workerDiePost w =>
     obtain ⟨j, hj, _, rfl⟩ := inv_workerDiePost hw hs
     have := sum_map_set (y := W.idle) hj
     simp only [W.weight] at this
-    simp only [mu, setW_caller, setW_enq, setW_loop, setW_ws, setW_donec, setW_cancelled, List.length_append,
+    simp only [mu, setW_caller, setW_enq, setW_loop, setW_ws, setW_donec, setW_doneCtx, List.length_append,
                List.length_singleton]
     omega
   | workerExit w =>
     obtain ⟨hj, _, rfl⟩ := inv_workerExit hs
     have := sum_map_set (y := W.exited) hj
     simp only [W.weight] at this
-    simp only [mu, setW_caller, setW_enq, setW_loop, setW_ws, setW_donec, setW_cancelled]
+    simp only [mu, setW_caller, setW_enq, setW_loop, setW_ws, setW_donec, setW_doneCtx]
     omega
-  | cancel =>
-    obtain ⟨hc, rfl⟩ := inv_cancel hs
-    simp only [mu, addLog_caller, addLog_enq, addLog_loop, addLog_ws, addLog_donec, addLog_cancelled, hc]
-    simp [cancelW]
+  | cancel x =>
+    obtain ⟨hc, hx, rfl⟩ := inv_cancel hs
+    have := cancelW_cons_lt c s.doneCtx x hx hc
+    simp only [mu, addLog_caller, addLog_enq, addLog_loop, addLog_ws, addLog_donec, addLog_doneCtx,
+               cancelCtx_caller, cancelCtx_enq, cancelCtx_loop, cancelCtx_ws, cancelCtx_donec, cancelCtx_doneCtx]
+    omega
 
 end Sched
